@@ -326,6 +326,61 @@ def r4_key_verify(chk, prog):
     chk.require(seen == set(want), "R4", f, "all-variants", "key variants handled: %s, expected %s" % (sorted(map(str, seen)), sorted(want)))
 
 
+SIGN_TO_VERIFY = {
+    # signing algorithm (tough::sign) -> the verification algorithm that accepts its output
+    "aws_lc_rs::signature::ECDSA_P256_SHA256_ASN1_SIGNING": "aws_lc_rs::signature::ECDSA_P256_SHA256_ASN1",
+    "aws_lc_rs::signature::ECDSA_P256_SHA256_FIXED_SIGNING": "aws_lc_rs::signature::ECDSA_P256_SHA256_FIXED",
+    "aws_lc_rs::signature::ECDSA_P384_SHA384_ASN1_SIGNING": "aws_lc_rs::signature::ECDSA_P384_SHA384_ASN1",
+    "aws_lc_rs::signature::ECDSA_P384_SHA384_FIXED_SIGNING": "aws_lc_rs::signature::ECDSA_P384_SHA384_FIXED",
+    "aws_lc_rs::signature::RSA_PSS_SHA256": "aws_lc_rs::signature::RSA_PSS_2048_8192_SHA256",
+    "aws_lc_rs::signature::RSA_PSS_SHA384": "aws_lc_rs::signature::RSA_PSS_2048_8192_SHA384",
+    "aws_lc_rs::signature::RSA_PSS_SHA512": "aws_lc_rs::signature::RSA_PSS_2048_8192_SHA512",
+    "aws_lc_rs::signature::RSA_PKCS1_SHA256": "aws_lc_rs::signature::RSA_PKCS1_2048_8192_SHA256",
+}
+
+
+def _algorithm_statics(body):
+    out = set()
+    for b in body.blocks:
+        if b.cleanup:
+            continue
+        for s in b.stmts:
+            if s.k == "assign" and s.rv.ops:
+                for op in s.rv.ops:
+                    if op.is_const and op.j.get("static", "").startswith("aws_lc_rs::signature::"):
+                        out.add(op.j["static"])
+        t = b.term
+        if t is not None and t.k == "call":
+            for op in t.args:
+                if op.is_const and op.j.get("static", "").startswith("aws_lc_rs::signature::"):
+                    out.add(op.j["static"])
+    return out
+
+
+def signer_verifier_agreement(chk, prog, rule):
+    """writer/reader agreement: every signature algorithm tough::sign signs with has its counterpart
+    among the algorithms Key::verify checks with (a signature made by the library's own signer must
+    be one its verifier accepts)"""
+    vb = prog.body(KEY_VERIFY)
+    if vb is None:
+        chk.anchor_missing(rule, KEY_VERIFY)
+        return
+    verifying = _algorithm_statics(vb)
+    signing = {}
+    for b in prog.bodies.values():
+        if (b.path.startswith("tough::sign::") or b.path.startswith("<tough::sign::") or " as tough::sign::Sign>" in b.path) \
+                and "/.cargo/" not in b.file and b.crate.startswith("tough"):
+            for st in _algorithm_statics(b):
+                signing.setdefault(st, b)
+    chk.floor(rule + "-signing", len(signing), 2, "signing algorithms in tough::sign (ECDSA, RSA-PSS)")
+    for st, b in sorted(signing.items()):
+        chk.analysed_body(b)
+        want = SIGN_TO_VERIFY.get(st)
+        chk.require(want is not None and want in verifying, rule, short_fn(b.path), "signer-matches-verifier:" + st.split("::")[-1],
+                    "tough::sign signs with %s but Key::verify checks with %s (needs %s): signatures made by this "
+                    "library would not verify under it" % (st, sorted(verifying), want or "an algorithm not in the checker's table"))
+
+
 def verify_edges(ctx, doc_pred, recv_pred=None, name_pred=None):
     """Ok edges of verify_role calls whose verified document satisfies doc_pred"""
     out = []
